@@ -453,6 +453,85 @@ def bystanders():
     return fails
 
 
+def late_edits():
+    """in-place edits of objects a long-lived sampler holds (its detector, its circuit): afterwards it behaves like a fresh object with the same settings -
+    including REFUSING what a fresh object refuses"""
+    import random as _random
+    from lightworks import emulator
+    import lightworks as lw
+    fails = []
+
+    def circ():
+        c = lw.Circuit(3)
+        c.bs(0)
+        c.bs(1, reflectivity=0.3)
+        c.bs(0, reflectivity=0.6)
+        return c
+
+    def observe(obj):
+        out = {}
+        try:
+            out["N_inputs"] = {tuple(k.s): v for k, v in obj.sample_N_inputs(300, seed=3).items()}
+        except Exception as e:  # noqa: BLE001
+            out["N_inputs"] = f"raised {type(e).__name__}"
+        _random.seed(11)
+        try:
+            out["sample"] = [tuple(obj.sample().s) for _ in range(40)]
+        except Exception as e:  # noqa: BLE001
+            out["sample"] = f"raised {type(e).__name__}"
+        try:
+            out["N_outputs"] = {tuple(k.s): v for k, v in obj.sample_N_outputs(100, seed=5).items()}
+        except Exception as e:  # noqa: BLE001
+            out["N_outputs"] = f"raised {type(e).__name__}"
+        return out
+    for label, edit, mk in (("detector.photon_counting = False", lambda d: setattr(d, "photon_counting", False), lambda: emulator.Detector(photon_counting=False)),
+                            ("detector.efficiency = 0.5", lambda d: setattr(d, "efficiency", 0.5), lambda: emulator.Detector(efficiency=0.5)),
+                            ("detector.p_dark = 0.3", lambda d: setattr(d, "p_dark", 0.3), lambda: emulator.Detector(p_dark=0.3)),
+                            ("efficiency 0.5 then back to 1", lambda d: (setattr(d, "efficiency", 0.5), setattr(d, "efficiency", 1)), lambda: emulator.Detector())):
+        for start in ("default detector", "explicit ideal detector"):
+            s = emulator.Sampler(circ(), lw.State([2, 0, 1])) if start == "default detector" else emulator.Sampler(circ(), lw.State([2, 0, 1]), detector=emulator.Detector())
+            observe(s)                       # used before the edit
+            edit(s.detector)
+            got = observe(s)
+            want = observe(emulator.Sampler(circ(), lw.State([2, 0, 1]), detector=mk()))
+            if got != want:
+                bad = [k for k in got if got[k] != want[k]]
+                fails.append(f"Sampler ({start}) after in-place `{label}`: {bad} differ from a fresh Sampler with that detector")
+    # a circuit edited in place into something click detectors cannot serve (two-photon herald): the long-lived QuickSampler refuses like a fresh one
+    c = lw.Unitary(U(4, 2))
+    q = emulator.QuickSampler(c, lw.State([1, 1, 0, 0]), photon_counting=False)
+    q.probability_distribution      # noqa: B018
+    c.herald(2, 3)
+    q.input_state = lw.State([1, 1, 0])
+
+    def outcome(make):
+        # refusing at construction or when the distribution is read are both "refuses"
+        try:
+            d = make().probability_distribution
+            return ("distribution", len(d))
+        except Exception as e:  # noqa: BLE001
+            return ("raised", type(e).__name__)
+    c2 = lw.Unitary(U(4, 2))
+    c2.herald(2, 3)
+    got, want = outcome(lambda: q), outcome(lambda: emulator.QuickSampler(c2, lw.State([1, 1, 0]), photon_counting=False))
+    if got != want:
+        fails.append(f"QuickSampler(photon_counting=False) after a two-photon herald was declared in place on its circuit: {got}; a fresh QuickSampler with the same settings: {want}")
+    return fails
+
+
+def unit_bystanders(tier="quick", seed=0):
+    bf = bystanders()
+    ob = dict(name="lightworks/emulator/simulation/sampler.py:Sampler#bnd.objects-independent", kind="bnd", cases=8, result="bounded-fail" if bf else "bounded-pass",
+              backend="native", ms=0, sample="a = Sampler(c, s); b = Sampler(c, s); a.source.brightness = 0.4; b.probability_distribution",
+              note="default-constructed Samplers share no source / detector object: an in-place edit on one leaves the others (earlier and later ones) ideal")
+    if bf:
+        ob["failing_cases"] = bf
+        ob["model"] = dict(observed=bf[0], n_failing=len(bf))
+        ob["replayed"] = "; ".join(bf[:2])
+        ob["replay_spec"] = dict(module="vf.tasks.t_history", func="replay", args=["bystanders", None, None])
+    return dict(status="ok", obligations=[ob], summary="bystander samplers: 8 cases")
+
+
 def unit(tier="quick", seed=0, kind="sampler", shard=0, nshards=1, only=None):
     """only: restrict the histories to sequences of these step kinds (a sub-family, e.g. parameter updates for C04)"""
     n, fails, sample = 0, [], None
@@ -505,6 +584,16 @@ def unit(tier="quick", seed=0, kind="sampler", shard=0, nshards=1, only=None):
         o["replay_spec"] = dict(module="vf.tasks.t_history", func="replay", args=json.loads(fails[0][0]))
     obs = [o]
     if kind == "sampler" and shard == 0 and only is None:
+        lf = late_edits()
+        ol = dict(name="lightworks/emulator/simulation/sampler.py:Sampler/QuickSampler#bnd.in-place-edits-of-held-objects", kind="bnd", cases=9, result="bounded-fail" if lf else "bounded-pass",
+                  backend="native", ms=0, sample="s.detector.photon_counting = False on a used Sampler; circuit.herald(2, m) in place under a click-detector QuickSampler",
+                  note="after in-place edits of the detector / circuit object a sampler holds, it behaves (and refuses) like a fresh object with those settings")
+        if lf:
+            ol["failing_cases"] = lf
+            ol["model"] = dict(observed=lf[0], n_failing=len(lf))
+            ol["replayed"] = "; ".join(lf[:2])
+            ol["replay_spec"] = dict(module="vf.tasks.t_history", func="replay", args=["late-edits", None, None])
+        obs.append(ol)
         bf = bystanders()
         ob = dict(name="lightworks/emulator/simulation/sampler.py:Sampler#bnd.objects-independent", kind="bnd", cases=8, result="bounded-fail" if bf else "bounded-pass",
                   backend="native", ms=0, sample="a = Sampler(c, s); b = Sampler(c, s); a.source.brightness = 0.4; b.probability_distribution",
@@ -521,6 +610,9 @@ def unit(tier="quick", seed=0, kind="sampler", shard=0, nshards=1, only=None):
 def replay(kind, steps, first_read):
     if kind == "bystanders":
         f = bystanders()
+        return "; ".join(f) if f else None
+    if kind == "late-edits":
+        f = late_edits()
         return "; ".join(f) if f else None
     if kind == "analyzer":
         f = analyzer_histories()
